@@ -12,14 +12,17 @@ META = {
     'level_text': 'Theorems for all byte streams, all segmentations and all dispatchers: feed_chunks_eq_concat (lines and residual '
                   'buffer depend only on the concatenation), one_reply_per_line, serve_total (whatever the dispatcher returns or '
                   'raises), reply_action_fits (table generated from REQUEST2REPLY, table facts by decide), error_class_is_secop, '
-                  'independent_lines, lines_whole, codec_inverse over an abstract JSON layer.  The models are tied to '
+                  'independent_lines, lines_whole (no frame contains a newline of its own; any number of senders doing acquire / partial writes / release '
+                  'in any interleaving leave a concatenation of whole frames), codec_inverse over an abstract JSON layer.  The models are tied to '
                   'frappy/protocol/interface/{__init__,handler,tcp}.py by a correspondence run on the real TCPRequestHandler over a '
-                  'scripted socket (stub dispatcher doing anything + the real Dispatcher over a small real node), and the Lean '
-                  'monitors judge the bytes the handler actually sent.',
+                  'scripted socket (stub dispatcher doing anything + the real Dispatcher over a small real node; two connections and an updater '
+                  'thread on one real dispatcher under a deterministic scheduler with partial writes), and the Lean monitors judge the bytes '
+                  'actually sent: whole lines, one fitting reply per request line, no events of modules the connection did not subscribe to.',
     'level_note': 'Trusted: Lean kernel + axioms propext/Classical.choice/Quot.sound; Python json and the UTF-8 codec enter the '
-                  'model as parameters with the laws of Spec.C07.LibLaws; strictness of emitted JSON and validity of emitted UTF-8 are '
-                  'tested on the implementation side only; ThreadingTCPServer and the socket are not modelled (a send is an atomic '
-                  'append that succeeds).',
+                  'model as parameters with the laws of Spec.C07.LibLaws; strictness of emitted JSON (judged on runs with the real Dispatcher; '
+                  'what a stub dispatcher hands over is harness input) and validity of emitted UTF-8 are tested on the implementation side only; '
+                  'ThreadingTCPServer and the socket are not modelled (sendall = a sequence of partial writes that succeed; send_lock = a lock '
+                  'acquired only when free).',
     'trusted': [
         'LibLaws: json.loads(json.dumps(x)) == x; json.dumps output is non-empty ASCII without newline that begins and ends with a '
         'printable non-blank character; UTF-8 validity of a text joined by blanks is validity of the parts',
@@ -31,7 +34,7 @@ META = {
     ],
     'modelled_not_verified': [
         'socketserver.ThreadingTCPServer / socket.recv / sendall (scripted fake socket)',
-        'threading.Lock around sendall (send = atomic append of one frame)',
+        'threading.Lock (send_lock): modelled as SendStep.acquire enabled only when nobody holds it; sendall as partial writes by the holder',
         'formatException / formatExtendedStack texts inside error reports (not observed; formatExtendedStack is replaced by a stub during the run because it repr()s every local of the harness frames)',
     ],
     'assumptions': [
@@ -111,6 +114,7 @@ def frame_rec(frame):
 
 
 SECOP_BY_NAME = {}
+_ORIG = {}
 
 
 def secop_by_name():
@@ -332,8 +336,14 @@ def run_impl(case):
     import frappy.protocol.interface.handler as fh
     # the stack dumps inside error reports repr() every local of every frame (including the harness's case lists);
     # their text is not observed (detailed_errors is off, the dict is cleared before sending)
-    fh.formatExtendedStack = lambda *a, **k: ''
-    fh.formatExtendedTraceback = lambda *a, **k: ''
+    if 'stack' not in _ORIG:
+        _ORIG['stack'], _ORIG['tb'] = fh.formatExtendedStack, fh.formatExtendedTraceback
+    detailed = bool(case['disp'].get('detailed'))
+    if detailed:      # the detailed_errors=True path with the real stack dump
+        fh.formatExtendedStack, fh.formatExtendedTraceback = _ORIG['stack'], _ORIG['tb']
+    else:
+        fh.formatExtendedStack = lambda *a, **k: ''
+        fh.formatExtendedTraceback = lambda *a, **k: ''
     chunks = [bytes.fromhex(c) for c in case['chunks']]
     sock = FakeSock(chunks)
     disp = case['disp']
@@ -347,6 +357,7 @@ def run_impl(case):
         d = RecordingDispatcher(node.dispatcher)
     d.sock = sock
     srv = ServerStub(d)
+    srv.detailed_errors = detailed
     with contextlib.redirect_stdout(io.StringIO()):
         TCPRequestHandler(sock, ('127.0.0.1', 4711), srv)
     died = [e for e in srv.log.errors if e and isinstance(e[0], str) and e[0].startswith('Traceback')]
@@ -861,6 +872,10 @@ def run(ctx):
         disp = {'kind': 'real', 'nan': rng.random() < 0.1} if real else {'kind': 'stub', 'plan': gen_plan(rng)}
         if real and rng.random() < 0.1:
             disp['ts'] = rng.choice(['nan', 'inf', '-inf'])
+        if len(stream) < 300 and rng.random() < 0.02:
+            disp['detailed'] = True      # detailed_errors=True: error reports keep exception text and stack dump
+            if 'plan' in disp:           # an `error_x` triple without report is sent as it is when reports are not cleared
+                disp['plan'] = [k if k != 'errshape' else 'none' for k in disp['plan']]
         for _ in range(2 if len(stream) < 3000 else 1):
             cases.append(case_of(segment(rng, stream), disp))
 
@@ -880,6 +895,9 @@ def run(ctx):
             res.count('lines.async', sum(1 for o in obs if o['a'] in asy))
             nlines = ev['stream'].count(b'\n')
             res.count('dispatcher.' + case['disp']['kind'])
+            if case['disp'].get('detailed'):
+                res.count('detailed_errors=True')
+                res.count('detailed_errors=True.reports-with-traceback', sum(1 for o in im['outs'] if b'"traceback": "' in o))
             res.count('lines=%s' % (nlines if nlines < 4 else '4+'))
             res.count('chunks=%s' % (len(case['chunks']) if len(case['chunks']) < 4 else '4+'))
             res.count('replies.positive', npos)
